@@ -258,15 +258,16 @@ F = z3.Function("F", ARR, z3.RealSort())
 
 
 def as_array(t):
-    """z3 array term holding the contents of a 1-d tensor (a lambda; beta-reduced by the solver)"""
-    j = z3.Int("aj")
+    """a fresh z3 array constant holding the contents of a 1-d tensor: arr[j] == t[j] for every index
+    (a universally quantified fact, instantiated like the others).  A lambda term is deliberately not used:
+    symbols created while evaluating the tensor at the lambda's bound index would have to depend on it."""
     c = ctx()
-    c._instantiating = True
-    try:
-        body = S.to_real(S.z(t.at(Sym(j))))
-    finally:
-        c._instantiating = False
-    return z3.Lambda([j], body)
+    name = str(c.fresh("pt", "Int")) + "_a"
+    arr = z3.Const(name, ARR)
+    fz = t.frozen()
+    n = t.shape[0]
+    c.add_forall((n,), lambda j: arr[S.z(j)] == S.to_real(S.z(fz.at(j))), f"{name}-contents")
+    return arr
 
 
 class PosteriorGhost:
